@@ -274,15 +274,26 @@ CreditSmall(s, msgs, i) ==
     IF i > Len(msgs) THEN s ELSE
     CreditSmall([s EXCEPT !.uCred = Put(@, msgs[i].cid, Get(@, msgs[i].cid, 0) + 1), !.cB = @ + msgs[i].len], msgs, i + 1)
 
-\* C09: an unreliable reassembly is open from its first slice until it completes or 3 s pass without a slice of it
-UOpenSlice(s, sl, now) ==
-    IF ~(sl.idx >= 0 /\ sl.idx < sl.n /\ sl.n < 100000) THEN s ELSE
-    LET cur == Get(s.uOpen, sl.mid, [n |-> sl.n, got |-> {}, len |-> 0, last |-> now])
+\* C09: an unreliable reassembly is open from the slice that made the endpoint reserve memory for it until it completes or 3 s
+\* pass without a slice of it.  A slice that finds no reassembly of its message either opens one (the endpoint reserves n * SLICE
+\* bytes) or is dropped because the channel has no room for the reservation (no memory is taken; unreliable channels may drop):
+\* which of the two happened is read from the memory the call took (delta), and any other change of the accounted memory is
+\* not explained by what was handed over.  Result: [s, ok].
+UOpenSlice(s, sl, now, delta) ==
+    IF ~(sl.idx >= 0 /\ sl.idx < sl.n /\ sl.n < 100000) THEN [s |-> s, ok |-> TRUE] ELSE
+    LET has == sl.mid \in DOMAIN s.uOpen
+        cur == IF has THEN s.uOpen[sl.mid] ELSE [n |-> sl.n, got |-> {}, len |-> 0, last |-> now]
         isnew == sl.idx \notin cur.got
         c1 == [cur EXCEPT !.got = @ \cup {sl.idx}, !.len = IF isnew THEN @ + sl.len ELSE @, !.last = now]
-    IN IF c1.got = 0..(c1.n - 1)
-       THEN [s EXCEPT !.uOpen = Drop(@, {sl.mid}), !.cB = @ + c1.len]
-       ELSE [s EXCEPT !.uOpen = Put(@, sl.mid, c1)]
+        full == c1.got = 0..(c1.n - 1)
+        completed == [s EXCEPT !.uOpen = Drop(@, {sl.mid}), !.cB = @ + c1.len]
+        stored == [s EXCEPT !.uOpen = Put(@, sl.mid, c1)]
+    IN IF has
+       THEN IF full THEN [s |-> completed, ok |-> delta = c1.len - c1.n * SLICE]
+            ELSE [s |-> stored, ok |-> delta = 0]
+       ELSE IF delta = 0 THEN [s |-> s, ok |-> TRUE]                       \* no room for the reservation: dropped
+            ELSE IF full THEN [s |-> completed, ok |-> delta = c1.len]
+            ELSE [s |-> stored, ok |-> delta = c1.n * SLICE]
 
 CreditSlice(s, sl) ==
     IF ~(sl.idx >= 0 /\ sl.idx < sl.n /\ sl.n < 100000) THEN s ELSE
@@ -324,7 +335,10 @@ ObsDeliver(o, e) ==
                      [] p.kind = "RS" /\ s.kind # "U" /\ WantHand(o) -> [o1 EXCEPT !.str[k] = HandSlice(s, p.sl)]
                      [] p.kind = "SU" /\ s.kind = "U" /\ Want(o, {"C03", "C09"}) -> [o1 EXCEPT !.str[k] = CreditSmall(s, p.msgs, 1)]
                      [] p.kind = "US" /\ s.kind = "U" /\ Want(o, {"C03"}) -> [o1 EXCEPT !.str[k] = CreditSlice(s, p.sl)]
-                     [] p.kind = "US" /\ s.kind = "U" /\ Want(o, {"C09"}) -> [o1 EXCEPT !.str[k] = UOpenSlice(s, p.sl, o1.ep[ek].now)]
+                     [] p.kind = "US" /\ s.kind = "U" /\ Want(o, {"C09"}) ->
+                            LET delta == IF s.ci \in DOMAIN e.st1.rmem /\ s.ci \in DOMAIN e.st0.rmem THEN e.st1.rmem[s.ci] - e.st0.rmem[s.ci] ELSE 0
+                                r == UOpenSlice(s, p.sl, o1.ep[ek].now, delta)
+                            IN FlagIf([o1 EXCEPT !.str[k] = r.s], ~r.ok /\ Alive(e.st1.status), <<"C09", "NoLeak">>)
                      [] OTHER -> o1
               ELSE o1
         o3 == IF handed /\ genuine /\ p.kind = "ACK" /\ ek \in DOMAIN o2.ep /\ WantTx(o)
